@@ -23,7 +23,7 @@ func TestSpaceCounts(t *testing.T) {
 					first = p
 				}
 				n++
-				if (!th && n%10 == 0) || n%500 == 0 {
+				if (!th && n%7 == 0) || n%501 == 0 {
 					if _, err := compiler.Compile(p.Text()); err == nil {
 						compiled++
 						forEachEnv(p, func(*gen.Env) { cases++ })
